@@ -813,6 +813,12 @@ func (ctx HelperContext) SimplifyUnusedExpr(expr Expr, unsupportedFeatures compa
 		// A call that has been marked "__PURE__" can be removed if all arguments
 		// can be removed. The annotation causes us to ignore the target.
 		if e.CanBeUnwrappedIfUnused {
+			// The arguments of a call in an optional chain are not evaluated when
+			// the chain short-circuits: "/* @__PURE__ */ a?.(b())" is not "b()"
+			if e.OptionalChain != OptionalChainNone && !ctx.ExprCanBeRemovedIfUnused(expr) {
+				return expr
+			}
+
 			var result Expr
 			for _, arg := range e.Args {
 				if _, ok := arg.Data.(*ESpread); ok {
